@@ -147,6 +147,14 @@ Next ==
 
 Spec == Init /\ [][Next]_vars
 
+(* Liveness (design level only): with a fair honest relayer every packet that was sent is eventually settled on its   *)
+(* source - acknowledged (success or error acknowledgement, also through the relay chain) and its commitment dropped. *)
+HonestStep == \E e \in {x \in Genuine : StepRes(x).ok} : Do(e) /\ Log(e)
+FairSpec == Init /\ [][Next]_vars /\ WF_vars(HonestStep)
+Settled(p) == ~HasCm(cs[p.src], p.src, p.dst, p.seq)
+Live_Settled == \A c \in Senders, d \in Dests, n \in 1..MaxSeq :
+                  (\E p \in sent : p.src = c /\ p.dst = d /\ p.seq = n) ~> (\A p \in sent : (p.src = c /\ p.dst = d /\ p.seq = n) => Settled(p))
+
 -------------------------------------------------------------------------------
 (* Generation: one randomly chosen event per step, weighted towards progress.  RandomElement is    *)
 (* evaluated while TLC's simulator builds the successors of the current state.                      *)
